@@ -22,7 +22,7 @@ def plan(ctx):
                               sample={"symbolic": "descriptors of the live instances, counter, one operation (kind, slot, lookup key)", "list_order": list(perm), "excluded_input": "counter within reach of INT_MAX" if excl else None}, targets=T))
     C0, C1, C2, D0, D1, D2, U0, U1, U2, F0, F1 = 0, 1, 2, 10, 11, 12, 20, 21, 22, 30, 31
     seqs = [[C0, C1, D0, U1], [C0, C1, D1, U0], [C1, C0, D1, U0, D0], [C0, D0, C1, U1], [C0, C2, D0, U2], [C2, C0, D2, U0], [C0, F0, U0], [F1, C0, U0], [C0, F1, C1, D0, U1],
-            [C0, C1, D0, D1, C1, U1], [C0, D0, C0, U0], [C0, C1, C2, D1, U0, U2], [2, 3, 22, 23, 13, 22], [3, 2, 23, 12, 23], [2, 3, 12, 23, 2, 22, 23]]
+            [C0, C1, D0, D1, C1, U1], [C0, D0, C0, U0], [C0, C1, C2, D1, U0, U2], [2, 3, 22, 23, 13, 22], [3, 2, 23, 12, 23], [2, 3, 12, 23, 2, 22, 23], [2, 3, 22], [3, 2, 23]]
     if thorough:
         seqs += [[C0, C1, C2, D0, D1, D2, C2, C1, U1, U2], [C1, D1, C1, D1, C0, U0], [C0, C1, U0, U1, D0, U1, C0, U0, D1, U0], [F0, F1, C2, F0, U2, C0, F1, U0]]
     pres = ["0", "1", "INT_MAX-2", "INT_MAX-1", "INT_MAX", "INT_MIN", "-1"]
@@ -32,6 +32,15 @@ def plan(ctx):
                           unwindset={"liberasurecode_backend_alloc_desc.0": 8, "crc32.0": 84, "crc32.1": 84, "main.0": 14}, timeout=1500, mem_gb=4,
                           sample={"history": sq, "encoding": "0-3 create slot, 10-13 destroy, 20-23 use, 30/31 failing create", "symbolic": "data bytes of every use", "counter_preset": pres[p]},
                           targets=["liberasurecode_instance_create", "liberasurecode_instance_destroy", "liberasurecode_encode", "rs_galois_init_tables", "rs_galois_deinit_tables"]))
+    # isolation of two instances of one back end with different shapes, at the adapter's op table (cheap: no front end)
+    from props.shapes import L1_UNITS, RS, XOR, ISAV, BNAME
+    for be in (XOR, RS, ISAV):
+        for order2 in (0, 1):
+            obs.append(Ob(id=f"iso-{BNAME[be]}-order{order2}", harness="c14_iso.c", defs=dict(BE=be, ORDER2=order2), units=L1_UNITS[be], unwind=12,
+                          unwindset={"ec_init_tables.0": 40, "ec_init_tables.1": 40, "ec_init_tables.2": 40, "enc_check.0": 8, "enc_check.1": 8, "enc_check.2": 8, "enc_check.3": 8},
+                          flags=["--memory-leak-check"], timeout=900, mem_gb=4,
+                          sample={"symbolic": "data bytes of every encode", "instances": "two shapes of " + BNAME[be], "destroy_order": "second first" if order2 == 0 else "first first"},
+                          targets=["flat_xor_hd_init", "flat_xor_hd_exit", "flat_xor_hd_encode"] if be == XOR else ["liberasurecode_rs_vand_init", "liberasurecode_rs_vand_exit"] if be == RS else ["isa_l_common_init", "isa_l_exit"]))
     return {"obs": obs,
             "assumptions": ["registry harness: typed static instances, no heap; API harness: 12 (quick) / 16 (thorough) enumerated histories over 3 slots (2 RS instances sharing the GF tables + 1 flat-XOR), the first three under all 7 counter presets; arbitrary histories rest on the symbolic registry history and the inductive registry step",
                             "GF arithmetic contract-replaced; table life cycle is the real rs_galois_init/deinit_tables (fill loop shrunk, see gen_galois)"],
